@@ -6,7 +6,7 @@ import z3
 from sx import core as S, env as E, pl, plh, families as F
 
 PROPERTY = "C08"
-REGIONS = ["leaf-fixed-by-bounds", "compound-fixed-by-bounds", "after-assume", "collapsed-to-constant", "nothing-fixed", "integer-leaf", "negative-sign"]
+REGIONS = ["childless-compound-not-prefixed", "leaf-fixed-by-bounds", "compound-fixed-by-bounds", "after-assume", "collapsed-to-constant", "nothing-fixed", "integer-leaf", "negative-sign"]
 BOUNDS = ("PL family skeletons (<=7 compounds); thresholds/signs symbolic on named nodes (|v|<=2^20); every leaf box symbolic "
           "(booleans: inside [0,1], so 'is it fixed' is the fork lower==upper; integers: inside [-32768,32767]); compound variable bounds "
           "(0,1)/(0,0)/(1,1) per instantiation; optional assume() with symbolic presence/constants on <=2 ids before reduce(); values of all "
@@ -59,7 +59,11 @@ def instantiations(tier, seed):
     for k, sk in enumerate([F.N("Any", F.j(), F.a(), id="A"), F.N("All", F.N("Any", F.j(), F.a(), F.b(), id="B"), F.c(), id="A"),
                             F.N("Imply", F.a(), F.N("Any", F.i(), F.b(), id="C"), id="A"), F.N("Xor", F.j(), F.a(), F.b(), id="A"),
                             F.N("All", F.i(), F.a(), id="A"), F.N("XNor", F.j(), F.a(), id="A"),
-                            F.N("Any", F.N("All", F.i(), F.a(), id="B"), F.N("Any", F.j(), F.b()), id="A")]):
+                            F.N("Any", F.N("All", F.i(), F.a(), id="B"), F.N("Any", F.j(), F.b()), id="A"),
+                            # compounds without sub-propositions (validation accepts them), not pre-fixed: reduce() must turn them into their constant
+                            F.N("Any", F.a(), F.N("Any", id="E"), id="A"), F.N("All", F.N("Any", F.a(), F.N("All", id="E"), id="B"), F.b(), id="A"),
+                            F.N("All", F.N("Any", F.b(), F.AL(1, id="E", sign=1), id="B"), F.AM(1, F.a(), F.N("Any", id="F"), id="C"), id="A"),
+                            F.N("Imply", F.N("All", id="E"), F.a(), id="A")]):
         m = _boolsym(F.rename(F.symbolize(sk), F.ALT_NAMES[(k + seed) % len(F.ALT_NAMES)]), 3)
         out.append({"model": m, "assumed": [], "warm": k % 2 == 1})
     base = _boolsym(F.symbolize(F.AL(2, F.a(), F.i(), F.AL(1, F.b(), F.c(), id="B", sign=1), id="A", sign=1)))
@@ -147,6 +151,8 @@ def run_inst(spec, run):
         if any(l not in bb for l in leaves):
             run.region("integer-leaf")
         for c in pl.compounds(model_spec):
+            if not c["ch"] and c.get("vb") in (None, [0, 1]) and c.get("id") not in spec["assumed"]:
+                run.region("childless-compound-not-prefixed")
             if c.get("vb") in ([0, 0], [1, 1]):
                 run.region("compound-fixed-by-bounds")
         if "leaf-fixed-by-bounds" not in run.regions or "nothing-fixed" not in run.regions:
